@@ -24,18 +24,24 @@ var (
 // authentication from netrc or git's credential helpers if necessary,
 // supporting basic authentication.
 func (c *Client) DoWithAuth(remote string, access creds.Access, req *http.Request) (*http.Response, error) {
+	return c.doWithAuthResubmit(remote, access, req, defaultMaxAuthAttempts)
+}
+
+func (c *Client) doWithAuthResubmit(remote string, access creds.Access, req *http.Request, resubmissions int) (*http.Response, error) {
 	count := 0
 	res, err := c.doWithAuth(remote, &count, access, req, nil)
 
-	if errors.IsAuthError(err) {
+	if errors.IsAuthError(err) && resubmissions > 0 {
 		if len(req.Header.Get("Authorization")) == 0 {
 			// This case represents a rejected request that
 			// should have been authenticated but wasn't. Do
 			// not count this against our redirection
-			// maximum.
+			// maximum. It is resubmitted a few times only: a
+			// credential helper may hand out the credentials
+			// the server just rejected again and again.
 			newAccess := c.Endpoints.AccessFor(access.URL())
 			tracerx.Printf("api: http response indicates %q authentication. Resubmitting...", newAccess.Mode())
-			return c.DoWithAuth(remote, newAccess, req)
+			return c.doWithAuthResubmit(remote, newAccess, req, resubmissions-1)
 		}
 	}
 
